@@ -358,6 +358,21 @@ func child(args []string) {
 					}
 					call(-1-k, callID{"compile", ladderStart + k, []int{0, 3}[(g+k)%2]})
 				}
+				// and every other source once, again all goroutines at the same
+				// moment: whatever a source touches for the first time in the
+				// process (an error path, a lazily built table) is touched concurrently
+				step := 52
+				for si := range sources {
+					if isLadder(si) {
+						continue
+					}
+					arrived.Add(1)
+					for arrived.Load() < int64(G*(step+1)) {
+						runtime.Gosched()
+					}
+					step++
+					call(-100-si, callID{"compile", si, []int{0, 3, 1, 4}[(g+si)%4]})
+				}
 			}
 			for n := 0; n < N; n++ {
 				var c callID
